@@ -99,6 +99,20 @@ impl Object {
         Self::with_type((value << VALUE_SHIFT_BITS) as _, Type::Int)
     }
 
+    /// Create a new integer value from the result of a checked operation.
+    /// Yields an error if the operation overflowed or was undefined (division by zero),
+    /// or if its result does not fit in the 61 bits available for integer values.
+    #[inline(always)]
+    pub(crate) fn checked_int(value: Option<isize>) -> Result<Self, Error> {
+        match value {
+            Some(v) if v >= MIN_INT && v <= MAX_INT => Ok(Self::int(v)),
+            _ => Err(Error::TypeError(
+                "resultaat valt buiten het bereik van integers of is niet gedefinieerd (deling door nul)"
+                    .to_string(),
+            )),
+        }
+    }
+
     /// Create a new function value
     pub fn function(ip: u32, num_locals: u16) -> Self {
         let value = ((ip as isize) << 16) | num_locals as isize;
@@ -361,7 +375,7 @@ impl PartialOrd for Object {
 }
 
 macro_rules! impl_arith {
-    ($func_name:ident, $op:tt) => {
+    ($func_name:ident, $op:tt, $checked_op:ident) => {
         #[inline(always)]
         pub(crate) fn $func_name(self, rhs: Self, gc: &mut GC) -> Result<Object, Error> {
             if self.tag() != rhs.tag() {
@@ -369,7 +383,7 @@ macro_rules! impl_arith {
             }
 
             let result = match self.tag() {
-                Type::Int => Object::int(self.as_int() $op rhs.as_int()),
+                Type::Int => Object::checked_int(self.as_int().$checked_op(rhs.as_int()))?,
 
                 // Safety: We've already asserted the object type
                 Type::Float => unsafe {
@@ -411,11 +425,11 @@ macro_rules! impl_cmp {
 }
 
 impl Object {
-    impl_arith!(add, +);
-    impl_arith!(sub, -);
-    impl_arith!(mul, *);
-    impl_arith!(div, /);
-    impl_arith!(rem, %);
+    impl_arith!(add, +, checked_add);
+    impl_arith!(sub, -, checked_sub);
+    impl_arith!(mul, *, checked_mul);
+    impl_arith!(div, /, checked_div);
+    impl_arith!(rem, %, checked_rem);
 
     impl_cmp!(gt, >);
     impl_cmp!(gte, >=);
